@@ -12,6 +12,10 @@
   `FixedBumpVec` refuses exactly when it is too full and never changes its buffer, `BumpVec` never refuses.
   Documented differences built into the specs: `retain` hands out `&mut T` (irrelevant for ids),
   `split_off` takes a range and works in place (see `Props/C16.lean`).
+  Also here: `BumpVec::splice` (`splice_refines`: like `Vec::splice`, whatever `size_hint` the source reports),
+  `BumpVec::map` (`vec_map_refines`: contents, order and the documented capacity on both code paths), and
+  the HISTORY-LEVEL refinement `history_refines` (`Coll/Run.lean`): every finite sequence of the 18
+  single-vector operations yields the contents of the same sequence run on plain lists.
 -/
 import BumpProof.Coll.Spec
 import BumpProof.Lemmas.CollWF
@@ -27,6 +31,7 @@ import BumpProof.Lemmas.CollRev
 import BumpProof.Lemmas.CollRevPerm
 import BumpProof.Coll.Run
 import BumpProof.Lemmas.CollSplice
+import BumpProof.Lemmas.CollMapVec
 import BumpProof.Props.C06
 
 namespace C08
@@ -724,6 +729,46 @@ theorem splice_refines (env : Env) (hk : env.kind = .bump) (hb : env.bombs = [])
     simp [hr, hr']
   · have hr' : ¬ (start > end_ ∨ end_ > v.abs.length) := by omega
     simp [hr, hr', hb]
+
+/-! ## `BumpVec::map` -/
+
+/-- `v.map(f)` behaves like `v.into_iter().map(f).collect()`: one result per element, in order, and the
+    capacity of the result is what the documentation promises: `cap * size_of::<T>() / size_of::<U>()` when the
+    buffer is reused (and the length fits it), exactly `len` on the fallback path -/
+theorem vec_map_refines (bombs : List Id) (lay : MapLay) (v : Vec) (hv : v.WF) (ids : List Id) (o : List Outcome)
+    (hi : ids.length = v.len) :
+    ∃ r, vecMap bombs lay v (rets ids ++ o) = .ok r ∧ r.exit = .ret () ∧ r.rest = o ∧ r.vec.abs = ids ∧ r.vec.len = v.len ∧
+      r.vec.len ≤ r.vec.cap ∧ r.vec.cap = (if lay.inPlace then v.cap * lay.st / lay.su else v.len) := by
+  have ⟨hs, hl⟩ := hv.slots_eq
+  have hcap := hv.len_le_cap
+  have heq := vecMap_eq bombs lay v v.abs (rets ids ++ o) hs hl
+  by_cases hip : lay.inPlace = true
+  · simp only [hip, ↓reduceIte] at heq ⊢
+    rw [vecMapSpec_rets false v.abs [] ids o (by omega)] at heq
+    simp only [mapAfter, List.nil_append] at heq
+    have hfit : ids.length ≤ v.cap * lay.st / lay.su := by
+      simp only [MapLay.inPlace, Bool.and_eq_true, decide_eq_true_eq, bne_iff_ne, ne_eq] at hip
+      obtain ⟨⟨⟨_, hsu⟩, _⟩, hle⟩ := hip
+      rw [Nat.le_div_iff_mul_le (by omega)]
+      calc ids.length * lay.su ≤ v.cap * lay.su := Nat.mul_le_mul_right _ (by omega)
+        _ ≤ v.cap * lay.st := Nat.mul_le_mul_left _ hle
+    generalize v.cap * lay.st / lay.su = N at heq hfit ⊢
+    refine ⟨_, heq, rfl, rfl, ?_, rfl, ?_, ?_⟩
+    · simp only [Vec.abs, hi.symm]; simp
+    · simp only [Vec.cap, List.length_append, length_I, length_H]; omega
+    · simp only [Vec.cap, List.length_append, length_I, length_H]; omega
+  · simp only [hip, Bool.false_eq_true, ↓reduceIte] at heq ⊢
+    rw [vecMapSpec_rets true v.abs [] ids o (by omega)] at heq
+    simp only [mapAfter, List.nil_append] at heq
+    refine ⟨_, heq, rfl, rfl, ?_, hi, ?_, ?_⟩
+    · simp only [Vec.abs]; simp
+    · simp only [Vec.cap, List.length_append, length_I, length_H]; omega
+    · simp only [Vec.cap, List.length_append, length_I, length_H]; omega
+
+/-- the three layout cases of `generic_map` l.2364, and the zero-sized ones -/
+example : ({ st := 16, su := 16 } : MapLay).inPlace = true ∧ ({ st := 16, su := 8 } : MapLay).inPlace = true ∧
+    ({ st := 16, su := 24 } : MapLay).inPlace = false ∧ ({ st := 16, su := 16, alignOk := false } : MapLay).inPlace = false ∧
+    ({ st := 0, su := 8 } : MapLay).inPlace = false ∧ ({ st := 16, su := 0 } : MapLay).inPlace = false := by decide
 
 /-! ## histories (`Coll/Run.lean`): every finite sequence of modelled operations refines the same
    sequence on plain lists -/
